@@ -457,6 +457,37 @@ func genC06(c *Ctx) {
 		b4, _ := crypto.EnoughShares(1, 100)
 		return fmt.Sprint(errClass(e1), " ", b2, " ", b3, " ", b4)
 	}))
+	// ---- distinct signers a power of two apart (8, 16, 32, 64, 128) in groups beyond 64 and 128 participants: a
+	// duplicate test on a bitmap or on a truncated / hashed index confuses i and i+2^k only there; the pair is placed
+	// first, last and in the middle of the list, in both orders, inside each block of 64 and of 128 indices
+	for _, nt := range [][2]int{{70, 2}, {140, 3}, {254, 5}} {
+		s := newThSetup(c, nt[0], nt[1])
+		for _, d := range []int{8, 16, 32, 64, 128} {
+			for _, a := range []int{0, 3, 63, 64, 67, 120, 125, 128, 131, 189} {
+				if a+d >= s.n {
+					continue
+				}
+				var rest []int
+				for x := 10; len(rest) < s.t-1; x += 13 {
+					if x%s.n != a && x%s.n != a+d && (x+1)%s.n != a && (x+1)%s.n != a+d {
+						rest = append(rest, (x+a%2)%s.n)
+					}
+				}
+				for v, idx := range [][]int{append([]int{a, a + d}, rest...), append(append([]int{}, rest...), a+d, a), append([]int{a + d}, append(append([]int{}, rest...), a)...)} {
+					if v > 0 && d != 64 && d != 128 {
+						continue
+					}
+					sh := make([]crypto.Signature, len(idx))
+					for k, i := range idx {
+						sh[k] = s.shares[i]
+					}
+					ans := recAns(s.n, s.t, sh, idx)
+					c.Case("reconstruct-signers-power-of-two-apart", recLine(s.n, s.t, sh, idx), ans)
+					c.Case("reconstruct-power-of-two-apart-is-group-signature", "th.groupsig "+s.envLine(), ans)
+				}
+			}
+		}
+	}
 }
 
 func seq(a, b int) []int {
